@@ -70,6 +70,7 @@ def run(model, rep, tier):
         _converter(model, rep, mname, w, r)
     _yaml(model, rep)
     _stale(model, rep, tier)
+    _dependence(model, rep)
 
 
 def _loader_obj(fn):
@@ -443,6 +444,28 @@ def _yaml(model, rep):
            '' if ok else 'ndarray YAML registration inconsistent', engine='tables')
 
 
+LOADER_PARAM_ALIAS = {'SSet': 'starset'}   # VectorStarSet.loadhdf5(SSet, group) takes the star set __init__ calls starset
+
+
+def _dependence(model, rep):
+    """a reloaded attribute depends on every constructor argument the original depends on."""
+    rep.rule('reload-keeps-dependencies', 'every constructor argument an attribute depends on still determines its reloaded value '
+                                          '(through the keys the writer stored)')
+    n = 0
+    for mname, cname in PAIRS:
+        mod = model.mod(mname)
+        ci = model.cls(mname, cname)
+        if '__init__' not in ci.methods or 'addhdf5' not in ci.methods or 'loadhdf5' not in ci.methods:
+            continue
+        for a, miss, node, dc, dl in parity.dependence_parity(model, ci, alias=LOADER_PARAM_ALIAS):
+            n += 1
+            rep.ob('reload-keeps-dependencies', mod, node, '%s.%s: constructor arguments %s ; reloaded from %s' % (cname, a, dc, dl), not miss,
+                   '' if not miss else 'the constructor builds %s from its argument(s) %s, but the loader rebuilds it from data that do not '
+                   'depend on them: a calculator constructed with a non-default %s is not reproduced by save / reload'
+                   % (a, ', '.join(miss), ', '.join(miss)), nontrivial=bool(dc), engine='parity', qual='%s.loadhdf5' % cname)
+    rep.floor('attributes compared between constructor and loader', n, 60)
+
+
 def _stale(model, rep, tier):
     n = 0
     scope = []
@@ -469,6 +492,8 @@ def _stale(model, rep, tier):
 OC, GF, CS = 'onsager/OnsagerCalc.py', 'onsager/GFcalc.py', 'onsager/crystalStars.py'
 BREAKERS = [
     (OC, "        diffuser.threshold = diffuser.crys.threshold\n", "", 'loader-defines-attributes'),
+    (OC, "        diffuser.sitelist = [[] for i in range(max(diffuser.invmap) + 1)]\n        for i, site in enumerate(diffuser.invmap):\n            diffuser.sitelist[site].append(i)\n",
+     "        diffuser.sitelist = diffuser.crys.sitelist(diffuser.chem)\n", 'reload-keeps-dependencies'),
     (OC, "zip(HDF5group['omega1_ij'][()],", "zip(HDF5group['omega1_IJ'][()],", 'reader-keys-subset-writer'),
     (GF, "        GFcalc.D, GFcalc.eta = None, 0  # we don't yet know the diffusivity", "        GFcalc.D, GFcalc.eta = 0, 0  # we don't yet know the diffusivity", 'ctor-loader-constants'),
     (OC, "        diffuser.thermo = stars.StarSet.loadhdf5(diffuser.crys, HDF5group['thermo'])", "        diffuser.thermo = stars.StarSet.loadhdf5(diffuser.crys, HDF5group['kinetic'])",
